@@ -122,17 +122,29 @@ HARNESSES = dict(("t%%d" %% i, _mk(i)) for i in range(len(TREES)))
 '''
 
 LAYER_A = COMMON + '''
-import z3
+try:
+    import z3
+except ImportError:
+    z3 = None      # the replay interpreter has no z3: terms are nested tuples there, compared structurally (with no axioms and
+                   # pairwise distinct constants "deferred != eager" is satisfiable exactly when the ground terms differ)
 
-Val = z3.DeclareSort("Val")
+if z3 is not None:
+    Val = z3.DeclareSort("Val")
 _funcs = {}
 
 
 def _f(name, arity):
     key = (name, arity)
     if key not in _funcs:
-        _funcs[key] = z3.Function(name, *([Val] * arity + [Val]))
+        if z3 is None:
+            _funcs[key] = lambda *a, name=name: (name,) + a
+        else:
+            _funcs[key] = z3.Function(name, *([Val] * arity + [Val]))
     return _funcs[key]
+
+
+def _const(name):
+    return ("const", name) if z3 is None else z3.Const(name, Val)
 
 
 _consts = {}
@@ -143,9 +155,9 @@ def lift(v):
         return v.t
     key = repr(v)
     if key not in _consts:
-        _consts[key] = z3.Const("c_" + key.replace("-", "m").replace(" ", "").replace(",", "_").replace("[", "L").replace("]", "J")
+        _consts[key] = _const("c_" + key.replace("-", "m").replace(" ", "").replace(",", "_").replace("[", "L").replace("]", "J")
                                 .replace("(", "L").replace(")", "J").replace("{", "D").replace("}", "E").replace(":", "_")
-                                .replace("'", "").replace(".", "p"), Val)
+                                .replace("'", "").replace(".", "p"))
     return _consts[key]
 
 
@@ -183,7 +195,7 @@ _install()
 
 def euf() -> str:
     """every tree without truth/len/selectors: deferred term == eager term, proved by z3 with no axioms"""
-    x, y, k, s = U(z3.Const("vx", Val)), U(z3.Const("vy", Val)), U(z3.Const("vk", Val)), U(z3.Const("vs", Val))
+    x, y, k, s = U(_const("vx")), U(_const("vy")), U(_const("vk")), U(_const("vs"))
     pkt = P()
     pkt.x, pkt.y, pkt.k, pkt.s = x, y, k, s
     n = 0
@@ -194,10 +206,13 @@ def euf() -> str:
         e = eager_value(etext, x, y, k, s)
         if not isinstance(d, U) or not isinstance(e, U):
             return "FAIL sig=C09|euf-not-a-term|%%s" %% dtext
-        sol = z3.Solver()
-        sol.set(timeout=10000)
-        sol.add(d.t != e.t)
-        r = sol.check()
+        if z3 is None:
+            r = "unsat" if d.t == e.t else "sat"
+        else:
+            sol = z3.Solver()
+            sol.set(timeout=10000)
+            sol.add(d.t != e.t)
+            r = sol.check()
         if str(r) != "unsat":
             return "FAIL sig=C09|operand-order-or-stack-discipline|%%s deferred=%%s eager=%%s" %% (dtext, d.t, e.t)
         n += 1
